@@ -34,6 +34,7 @@ def request_sites(ctx, body):
 
 
 def run(ctx):
+    calc_adjacent_rule(ctx, "C24")
     calc = find_sites(ctx)
     ctx.floor("C24.calc.sites", "calculate_range_to_fetch call sites in the syncer", len(calc), 1)
     for body, blk in calc:
@@ -54,3 +55,35 @@ def run(ctx):
             require_guard(ctx, body, Has("call:*::is_empty", "call:" + S + "calculate_range_to_fetch", name="empty batch -> no request"), "C24.request.nonempty", targets=[b])
             require_guard(ctx, body, Has("field:num_connected_peers", name="no connected peers -> no request"), "C24.request.peers", targets=[b])
             require_guard(ctx, body, Has("call:*is_terminated", "self.ongoing_batch", name="one batch at a time"), "C24.request.single", targets=[b])
+
+
+def calc_adjacent_rule(ctx, prop):
+    """calculate_range_to_fetch, backfill branch: the lower end of the gap comes from the synced range
+    ADJACENT to the head range. Two independently seeded regressions replaced it by the LOWEST synced range
+    (`lower_ranges.first()`, `rev_iter.last()`), which is identical for up to two ranges and wrong for three.
+    Contradiction-style rule: it fires only when the lower bound provably derives from the lowest element
+    (`first`, `Iterator::last`/`min` of a reversed iterator, `next` of a forward iterator, index 0); any other
+    formulation is not judged."""
+    from engine.mir import std_tail, walk
+    from engine.rules import exit_sites
+    c = ctx.anchor(S + "calculate_range_to_fetch")
+    if not c:
+        return
+    bad = []
+    seen = 0
+    for x in exit_sites(c):
+        for n in walk(x["expr"]):
+            if n[0] == "call" and (std_tail(n[2]) or "").endswith("RangeInclusive::new") and n[3]:
+                seen += 1
+                lo = n[3][0]
+                for m in walk(lo):
+                    if m[0] != "call":
+                        continue
+                    tl = std_tail(m[2]) or ""
+                    inner = {std_tail(k[2]) for a in m[3] for k in walk(a) if k[0] == "call"}
+                    rev = any(t and t.endswith("::rev") for t in inner)
+                    if tl in ("<impl [T]>::first", "<impl [T]>::first_mut") or (tl in ("Iterator::last", "Iterator::min", "Iterator::min_by_key") and rev) or (tl == "Iterator::next" and not rev and any(t and t.endswith("::iter") for t in inner)):
+                        bad.append((tl, x["loc"]))
+    ctx.check(seen >= 1, prop + ".calc.range-sites", c.path, "range constructions in the batch calculation: %d" % seen, key=prop + ".calc.range-sites")
+    ctx.check(not bad, prop + ".calc.adjacent", c.path, "the backfill gap is bounded below by the synced range adjacent to the head range, not by the lowest synced range" + (" (lower bound derives from %s)" % bad[0][0] if bad else ""),
+              site=bad[0][1] if bad else None, key=prop + ".calc.adjacent")
